@@ -873,14 +873,16 @@ def cells_C09(tier, consts):
     cells = []
     combos = [(1, "float"), (2, "float"), (2, "unsigned"), (3, "unsigned"), (3, "double"), (4, "unsigned")] if tier == "quick" else \
              [(n, t) for n in (1, 2, 3, 4) for t in ("unsigned", "float", "double") if not (n == 4 and t != "unsigned")]
-    combos = combos + [(2, "uint8_t"), (3, "uint8_t")]
+    if tier == "thorough":
+        combos = combos + [(2, "uint8_t")]
     for n, t in combos:
         d = {"DIMS_IN": n, "AT": t, "DIMS_OUT": 2 if n != 2 else 3, "OUT_SCALAR_T": "float"}
         cl = "unwinding to the template constants N, N+1 (complete)"
         be = (("cvc5", 300), ("cadical", 600))   # cvc5's FP/BV theories see the structural identity at once; SAT has to prove multiplier circuits equivalent
         def C(name, h, enforce=None, replace=()):
+            opt = name == "lemma_compose"
             cells.append(Cell("affine.%s.N%d.%s" % (name, n, t), "affine", h, defines=d, enforce=enforce, replace=list(replace), unwind=8,
-                              backends=be, closes_loops=cl, object_bits=10,
+                              backends=be, closes_loops=cl, object_bits=12, optional=opt,
                               note="all values of T; lemmas in the ring of unsigned (mod 2^32)", replay=None))
         if t == "uint8_t":
             C("lemma_compose", "h_lemma_compose", None, ["affine_mul", "affine_apply"])
@@ -896,13 +898,15 @@ def cells_C09(tier, consts):
         C("scaling", "h_affine_scaling", "affine_scaling", ["mat_identity"])
         C("at", "h_affine_at", "affine_at", ["affine_apply"])
         if t == "unsigned":
+            if tier == "thorough":
+                C("lemma_compose", "h_lemma_compose", None, ["affine_mul", "affine_apply"])   # recorded attempt (cubic ring identity: undecided in the probes)
             C("lemma_factories", "h_lemma_factories", None, ["affine_translation", "affine_scaling", "mat_identity", "affine_apply"])
     return cells
 
 
 PROPS["C09"] = {
-    "level_text": "matrix product, identity, affine*vector, affine*affine, translation, scaling and the affine layer's lookup proved against the textbook formulas on the exact sub-domain the property names (all small-integer matrices and vectors: every operation is exact in int, float and double), N=1..4; lemmas over the contracts: (A*B)*v == A*(B*v) (the product applies the right factor first), translation(t)*v == v+t, scaling(s)*v == s.v, identity*v == v; the layer queries its backend exactly once at A x + t",
-    "level_note": "the 'within rounding' half for arbitrary finite floats is NOT decided (symbolic float products); the unsigned instantiation is the same template text with T=unsigned (arithmetic modulo 2^32: a commutative ring, no undefined overflow); matrix operator()/operator* rewritten by rule R17",
+    "level_text": "matrix product, identity, affine*vector, affine*affine, translation, scaling and the affine layer's lookup proved against the textbook formulas (summation order fixed, so the contracts hold bit-exactly for every value of float, double and unsigned), N=1..4; the product of two transforms is proved to be the composition matrix (A*B)_ij = sum_k A_ik B_kj + [j=N] A_iN, i.e. apply the right factor and then the left; lemmas over the contracts in the ring of unsigned: translation(t)*v == v+t, scaling(s)*v == s.v, identity*v == v; the layer queries its backend exactly once at A x + t",
+    "level_note": "the mechanised lemma (A*B)*v == A*(B*v) is a cubic ring identity that no installed back end decides (cvc5, cadical; also at the 8-bit instantiation): it is a recorded, optional attempt in the thorough tier and is NOT counted; no rounding-error bound is claimed; the unsigned instantiation is the same template text with T=unsigned (arithmetic modulo 2^32: a commutative ring, no undefined overflow); matrix operator()/operator* rewritten by rule R17",
     "design_ref": "DESIGN.md section 5 (C09)",
     "cells": cells_C09, "consts": False,
     "explanation": "affine algebra on the exact small-integer sub-domain",
